@@ -166,9 +166,12 @@ def window_shards(tier):
         sh.append({"kind": "one", "cls": cls})
         for b0 in range(256):
             sh.append({"kind": "two", "cls": cls, "b0": b0})
+    for cls in (64, 32):    # the two-byte opcode map under every mandatory prefix: the SSE / system instruction vocabulary
+        for esc in ("0f", "660f", "f20f", "f30f"):
+            sh.append({"kind": "esc", "cls": cls, "esc": esc})
     if tier == "thorough":
         for cls in (64, 32):
-            for esc in ("0f38", "0f3a", "c4e1", "c4e2", "c4e3", "c5", "62f1", "660f", "f20f", "f30f", "6766", "2e3e", "4866", "f066"):
+            for esc in ("0f38", "0f3a", "c4e1", "c4e2", "c4e3", "c5", "62f1", "6766", "2e3e", "4866", "f066"):
                 sh.append({"kind": "esc", "cls": cls, "esc": esc})
     return sh
 
@@ -271,6 +274,18 @@ def run_eos_shard(shard, tier, h, res, known, clauses, prop):
 # ----------------------------------------------------------------------------- exotic instruction family (real as + objdump)
 
 EXOTIC64 = """
+ movss %xmm1,%xmm0
+ addss %xmm2,%xmm3
+ mulss 0x8(%rax,%rbx,4),%xmm1
+ cvtsi2ss %eax,%xmm1
+ cvtsi2ssl 0x8(%rsp),%xmm2
+ rsqrtss %xmm1,%xmm2
+ lss 0x10(%rax),%ebx
+ lfs (%rax),%ecx
+ lgs 0x8(%rax,%rbx,2),%edx
+ movs %ds:(%rsi),%es:(%rdi)
+ stos %al,%es:(%rdi)
+ cmpxchg8b (%rax)
  vmovups %zmm0,0x40(%rax,%rbx,4){%k1}
  vmovups 0x40(%rax,%rbx,4),%zmm0{%k1}{z}
  vaddps (%rax){1to16},%zmm1,%zmm2
